@@ -25,7 +25,7 @@ def run(tier="quick", seed=0, tag="C15#native"):
     for _ in range(n):
         items, prev = [], None
         for _j in range(rnd.randrange(0, 7)):
-            k = rnd.choice([x for x in range(0, 255) if x != prev])
+            k = rnd.choice([x for x in (range(0, 16) if rnd.random() < 0.5 else range(0, 255)) if x != prev])  # (the defined pairing types are 0..15)
             prev = k
             size = rnd.choice(SIZES + [rnd.randrange(0, 1200)])
             items.append((k, bytes(rnd.randrange(256) for _ in range(size))))
